@@ -140,6 +140,8 @@ int main() {
   static const char* ln[] = {"LC_CSR<uint32>", "LC_CSR<void>+numa", "LC_CSR_CSC", "LC_Linear", "LC_InlineEdge", "LC_Morph", "LC_CSR(arrays)", "LC_CSR<uint64>v2"};
   vsim_note("component", "layout=%s", ln[layout]);
   vsim_enable_fault(VF_COND_SPURIOUS, 0.05, 0.4);
+  vsim_enable_fault(VF_PLAIN_PREEMPT, 0.02, 0.6);   // plain shared data of the library (behind locks, in shared helper state) becomes preemptible
+  vsim_plain_preempt_window(1);   // operators here keep no shared non-atomic bookkeeping of their own
   vsim_enable_fault(VF_COND_MULTIWAKE, 0.05, 0.4);
   vsim_enable_fault(VF_HUGE_REFUSED, 0.2, 0.9);
   vsim_set_budget(8000000);
